@@ -399,6 +399,12 @@ class StrOps:
             x = self.materialise(x)
         container = self.norm_str(container)
         if isinstance(container, LongStr):
+            x = tostr(self.norm_str(x)) if isinstance(x, (str, FixedStr)) else x
+            if isinstance(x, FixedStr) and len(x) == 1 and isinstance(x.chars[0], int):
+                if not container.cls.contains(x.chars[0]) and not (container.lastnl and x.chars[0] == 10):
+                    return False
+                ctx.mark_approx('membership test in a long string')
+                return ctx.fresh_bool('inlong')
             raise Unsupported('membership test in a long string')
         if isinstance(x, LongStr):
             if isinstance(container, (tuple, list, set, frozenset, dict)) and all(isinstance(e, str) for e in container):
@@ -484,7 +490,10 @@ class StrOps:
             d = self._dom(ch)
             rr = [(lo, hi, dl) for lo, hi, dl in runs if not d.disjoint(ISet([(lo, hi)]))]
             if len(rr) > 60:
-                raise Unsupported('%s() of a nearly unconstrained character' % kind)
+                # nearly unconstrained character: keep only the image set (relation to the source dropped)
+                ctx.mark_approx('%s() of a nearly unconstrained character' % kind)
+                out.append(ctx.fresh_char(case_image(kind, d), 'u'))
+                continue
             img = case_image(kind, d)
             u = ctx.fresh_char(img, 'u')
             e = ch
